@@ -56,8 +56,8 @@ def _run_one(args):
     except AnalysisError as e:
         return (m["id"], "analysis-error", [str(e)])
     keys = [(f.rule, f.site, f.construct) for f in ctx.findings]
-    if err and not keys:
-        return (m["id"], "analysis-error", [err[:300]])
+    if err:
+        return (m["id"], "ran+error", keys + [("ANALYSIS-ERROR", err[:300], "")])
     return (m["id"], "ran", keys)
 
 
@@ -86,6 +86,18 @@ def run(ctx, jobs=None):
             caught += 1
             details.append({"variant": m["id"], "result": "analysis stops (exit 2) as expected"})
             continue
+        if status == "ran+error":
+            errs = [k for k in keys if k[0] == "ANALYSIS-ERROR"]
+            keys = [k for k in keys if k[0] != "ANALYSIS-ERROR"]
+            if not [k for k in keys if k not in base]:
+                exp_ = m.get("expect")
+                if "ANALYSIS-ERROR" in ([exp_] if isinstance(exp_, str) else (exp_ or [])):
+                    caught += 1
+                    details.append({"variant": m["id"], "result": "analysis stops (exit 2) as expected"})
+                else:
+                    missed.append((m["id"], "analysis-error: " + errs[0][1][:200]))
+                continue
+            status = "ran"
         if status != "ran":
             missed.append((m["id"], status + ": " + "; ".join(map(str, keys))[:200]))
             continue
@@ -104,6 +116,9 @@ def run(ctx, jobs=None):
         status, keys = res[m["id"]]
         if status == "skipped":
             bskipped += 1
+            continue
+        if status == "ran+error":
+            noisy.append((m["id"], "analysis error: " + "; ".join(str(k[1]) for k in keys if k[0] == "ANALYSIS-ERROR")[:200]))
             continue
         if status != "ran":
             noisy.append((m["id"], status + ": " + "; ".join(map(str, keys))[:200]))
